@@ -498,12 +498,12 @@ Lemma handle_no_internal req w :
   let res := handle req w in
   no_internal (d_trace res) /\
   kg_content (d_world res) internal_kg = kg_content w internal_kg /\
-  (q_cur req <> internal_kg -> d_bound res <> Some internal_kg) /\
+  (q_bound req <> Some internal_kg -> d_bound res <> Some internal_kg) /\
   (q_cur req = internal_kg -> d_dec res = Denied).
 Proof.
   intros HR. cbv zeta. unfold handle, handle_with, kg_content.
-  assert (HB : q_cur req <> internal_kg -> bound_before req <> Some internal_kg).
-  { unfold bound_before. destruct (q_session req); congruence. }
+  assert (HB : q_bound req <> Some internal_kg -> bound_before req <> Some internal_kg).
+  { unfold bound_before. auto. }
   destruct (authorize_request _ _ _ _ _) eqn:HA.
   2:{ cbn. repeat split; auto. constructor. }
   apply authorize_request_parts in HA. destruct HA as [HI [HW HL]].
@@ -511,7 +511,7 @@ Proof.
   assert (VQ : let res := via_query_program req w in
                no_internal (d_trace res) /\
                lookup internal_kg (w_kgs (d_world res)) = lookup internal_kg (w_kgs w) /\
-               (q_cur req <> internal_kg -> d_bound res <> Some internal_kg) /\
+               (q_bound req <> Some internal_kg -> d_bound res <> Some internal_kg) /\
                (q_cur req = internal_kg -> d_dec res = Denied)).
   { cbv zeta. unfold via_query_program, query_program.
     destruct (lookup (q_cur req) (w_kgs w)).
@@ -530,14 +530,14 @@ Proof.
     fold (run (w_kgs w) (q_cur req) ss) in T1, T2, T3, T4.
     set (st := run (w_kgs w) (q_cur req) ss) in *.
     split; [exact T1|]. split; [exact T2|]. split; [|congruence].
-    intros _.
+    intros Hb.
     (* the binding afterwards: unchanged, the last switch target, or closed *)
     assert (B1 : match (if r_query st then None else r_switched st) with
                  | Some g => if q_session req then Some g else None
                  | None => bound_before req
                  end <> Some internal_kg).
-    { destruct (r_query st); [apply HB; exact Hcur|].
-      destruct (r_switched st) as [g|] eqn:ES; [|apply HB; exact Hcur].
+    { destruct (r_query st); [apply HB; exact Hb|].
+      destruct (r_switched st) as [g|] eqn:ES; [|apply HB; exact Hb].
       destruct (q_session req); congruence. }
     unfold bound_before in B1.
     match goal with |- ?b <> _ => change b with (d_bound (finish req w st)) end.
